@@ -248,7 +248,9 @@ def library(draw, lang=None, max_decls=8, with_python=None, with_lua=None, featu
         {"class", "enum", "struct", "namespace", "overload", "default", "template", "generic"}
         if lang == "c++" else {"enum", "struct", "generic"})
     names = Names()
-    lib = dict(library=names.fresh("Lib"), language=lang, options={}, format={}, decls=[])
+    # (different library names give different C prefixes: state kept between libraries in one process shows)
+    lib = dict(library=names.fresh(draw(st.sampled_from(["Lib", "Lib", "Geom", "Tools", "alpha", "Mesh"]))), language=lang,
+               options={}, format={}, decls=[])
     wp = draw(st.booleans()) if with_python is None else with_python
     wl = (draw(st.booleans()) if with_lua is None else with_lua) and lang == "c++"
     lib["options"]["wrap_python"] = wp
